@@ -13,6 +13,7 @@ import (
 	"image"
 	"image/jpeg"
 	"io/ioutil"
+	"math"
 	"net/http"
 	"os"
 	"reflect"
@@ -2437,6 +2438,10 @@ func (d *Data) ServeHTTP(uuid dvid.UUID, ctx *datastore.VersionedCtx, w http.Res
 		span, err := strconv.Atoi(parts[5])
 		if err != nil {
 			server.BadRequest(w, r, err)
+			return
+		}
+		if span <= 0 || int64(span)*d.BlockSize().Prod()*int64(d.Values.BytesPerElement()) > math.MaxInt32 {
+			server.BadRequest(w, r, "span %d of blocks is not positive or too large for one request", span)
 			return
 		}
 		if action == "get" {
